@@ -190,6 +190,7 @@ func (s *setupWorker) setup(ctx context.Context, m transport.Metadata) error {
 	)
 	L(ctx).Debug("session connected")
 	if metadata, err := s.state.SessionMetadatas().ByClientID(session.MountPoint(), session.ClientID()); err == nil {
+		verifPoint("setup.afterLookupOld", session.ID())
 		err := s.state.SessionMetadatas().Delete(metadata.SessionID)
 		if err != nil {
 			return err
